@@ -301,6 +301,12 @@ pub fn reverse_position_reply(
         // latest margin requirements
         let margin = previous_margin.checked_sub(swap.unrealized_pnl)?;
 
+        // a positive value means the closed leg owes more than its margin: like a close, this must
+        // not pay out (the magnitude used to be paid to the trader whatever the sign)
+        if margin.is_positive() && !margin.is_zero() {
+            return Err(StdError::generic_err("Cannot close position - bad debt"));
+        }
+
         // create transfer message
         msgs.push(execute_transfer(deps.storage, &swap.trader, margin.value).unwrap());
 
